@@ -5,8 +5,7 @@ open Isotp Isotp.Py
 
 theorem evalCmp_le_pint (a b : Int) : evalCmp .le (pint a) (pint b) = .ok (pbool (decide (a ≤ b))) := by
   simp [evalCmp, isNumber, numLt, PyVal.pyEq, PyVal.isInt, PyVal.intVal, bind, Except.bind]
-  rw [Bool.eq_iff_iff]; simp
-  done
+  rw [Bool.eq_iff_iff]; simp only [Bool.or_eq_true, decide_eq_true_eq, beq_iff_eq]; omega
 theorem evalCmp_lt_pint (a b : Int) : evalCmp .lt (pint a) (pint b) = .ok (pbool (decide (a < b))) := by
   simp [evalCmp, isNumber, numLt, PyVal.isInt, PyVal.intVal, Except.map]
   rfl
@@ -33,7 +32,9 @@ theorem execBlock_if_le_ret (M : Meths) (env : Env) (x : String) (n c : Int) (e 
 theorem get_nearest_can_fd_size_agrees (n : Nat) :
     retOf (sizeEnv n) Src.TransportLayerLogic_p_get_nearest_can_fd_size = nearestFdResult n := by
   have hs : sizeEnv n "size" = some (pint n) := rfl
-  simp [retOf, runFn, Src.TransportLayerLogic_p_get_nearest_can_fd_size, execBlock_if_le_ret _ _ _ _ _ _ _ hs, nearestFd, nearestFdResult]
-  done
+  simp only [retOf, runFn, Src.TransportLayerLogic_p_get_nearest_can_fd_size, execBlock_if_le_ret _ _ _ _ _ _ _ hs, nearestFd, nearestFdResult]
+  repeat' split
+  all_goals simp_all [execBlock, execStmt, eval]
+  all_goals omega
 
 end Isotp.PyAgree
